@@ -340,3 +340,56 @@ emit(find($k)); emit(999);`
 	want = append(want, ret, 999)
 	same(got, ok, want, "return-from-foreach")
 }
+
+// H_repeated_statements: the same loop statement is executed several times with different
+// values (function called twice, recursion, loop nested in a loop): every execution uses the
+// values of its own activation.
+func H_repeated_statements() {
+	a, b := symx.Int("a"), symx.Int("b")
+	n := symx.IntRange("n", 0, 2)
+	k := symx.Choose("variant", 4)
+	srcs := []string{
+		// foreach over a literal built from the parameter, function called twice
+		`function f($p) { foreach ([$p, $p + 1] as $i => $v) { emit($v); } } f($a); f($b);`,
+		// nested: inner foreach over a literal built from the outer counter
+		`for ($i = 0; $i < $n; $i++) { foreach ([$i, $i * 10] as $v) { emit($v); } } emit(99);`,
+		// recursion: each activation iterates its own literal
+		`function r($d, $x) { foreach ([$x, $d] as $v) { emit($v); } if ($d > 0) { r($d - 1, $x + 1); } } r($n, $a);`,
+		// while/for bounds and switch subjects taken from parameters, function called twice
+		`function g($m, $s) { for ($i = 0; $i < $m; $i++) { emit($i + $s); } switch ($m) { case 0: emit(100); break; case 1: emit(101); break; default: emit(102); } } g($n, $a); g(1, $b);`,
+	}
+	got, ok := run(srcs[k], map[string]int{"a": a, "b": b, "n": n})
+	var want []int
+	switch k {
+	case 0:
+		want = []int{a, a + 1, b, b + 1}
+	case 1:
+		for i := 0; i < n; i++ {
+			want = append(want, i, i*10)
+		}
+		want = append(want, 99)
+	case 2:
+		x := a
+		for d := n; d >= 0; d-- {
+			want = append(want, x, d)
+			x++
+		}
+	case 3:
+		g := func(m, s int) {
+			for i := 0; i < m; i++ {
+				want = append(want, i+s)
+			}
+			switch m {
+			case 0:
+				want = append(want, 100)
+			case 1:
+				want = append(want, 101)
+			default:
+				want = append(want, 102)
+			}
+		}
+		g(n, a)
+		g(1, b)
+	}
+	same(got, ok, want, "repeated-statements")
+}
